@@ -454,6 +454,8 @@ class Engine:
         if isinstance(val, int):
             return VInt(val)
         if isinstance(val, float):
+            if val != val:
+                return VReal(0, z3.Real("NaN_const"))   # NaN only as a marker value that is stored and passed through
             return xr_const(val)
         if isinstance(val, str):
             return VConc(val)
@@ -871,6 +873,8 @@ class Engine:
                     z3.Const(f"{tag}_{field}_v", z3.ArraySort(Ref, z3.RealSort())))
         if kind.startswith("set:"):
             return z3.Const(f"{tag}_{field}", z3.ArraySort(Ref, z3.ArraySort(sort_of(kind[4:]), z3.BoolSort())))
+        if kind == "seqref":
+            return z3.Const(f"{tag}_{field}", z3.ArraySort(Ref, z3.ArraySort(z3.IntSort(), Ref)))
         return z3.Const(f"{tag}_{field}", z3.ArraySort(Ref, sort_of(kind)))
 
     def heap_write(self, st, field, ref, v):
@@ -936,6 +940,11 @@ class Engine:
                 h = self.hooks.get("call_abstract")
                 if h:
                     return h(self, st, f, pos, kw)
+            if f.kind == "np_empty":
+                # numpy.empty(n): an array of n unspecified reals, modelled as a list of reals
+                n = unwrap(pos[0], "int")
+                st2, l = alloc_list(st, "real", base="nparr", length=n)
+                return [("ok", st2, l)]
         if isinstance(f, VClass):
             return self.construct(st, f.name, pos, kw)
         if isinstance(f, (VRef, VObj)):
@@ -960,6 +969,12 @@ class Engine:
         c = self.reg.get(f"{clsname}.__init__")
         if c is not None:
             return self.apply_contract(st, c, pos, kw, constructing=clsname)
+        if clsname in getattr(self.reg, "records", ()):
+            # plain record constructor (assumed): stores its keyword arguments as attributes
+            if pos:
+                raise Unsupported(f"record constructor {clsname} with positional arguments")
+            st2, o = alloc_obj(st, clsname, {"attr:" + k: v for k, v in kw.items()})
+            return [("ok", st2, o)]
         raise Unsupported(f"constructor {clsname} without contract")
 
     def call_method(self, st, recv, name, pos, kw):
